@@ -114,6 +114,22 @@ func runFind(c *Case) []string {
 			}
 		}
 	}
+	// the caller's slice held another pattern of the same length in an earlier (completed) search and was then
+	// overwritten in place: nothing of that earlier search may carry over
+	if finiteView := we >= 0 || len(rep) == 0; finiteView && src == nil && len(pat) > 0 {
+		for i := range pat {
+			pat[i] = (origPat[0] + 1 + i) % 10
+		}
+		switch c.Ver {
+		case "v1":
+			v1.FindFirst(v.s1, pat)
+		case "v2":
+			v2.FindFirst(v.s2, pat)
+		default:
+			v3.FindFirst(v.s3, pat)
+		}
+		copy(pat, origPat)
+	}
 	switch c.Ver {
 	case "v1":
 		s := v.s1
@@ -659,8 +675,58 @@ func genOverlapFind(n int, r *Rng, emit func(Case)) {
 	}
 }
 
+// genLongRun: the pattern is one digit repeated and the source holds a run of that digit far longer than the
+// read-ahead allowance (or goes on with it for ever): the first matches are reported from the start of the run.
+func genLongRun(n int, r *Rng, emit func(Case)) {
+	for i := 0; i < n; i++ {
+		ver := allVers[(i/2)%3]
+		m := r.Range(2, 5)
+		d := r.Intn(10)
+		pat := make([]int, m)
+		for k := range pat {
+			pat[k] = d
+		}
+		at := r.Pick([]int{1, 2, 50, 99, 100, 650})
+		run := r.Pick([]int{1300, 2500, 5200})
+		forever := i%4 == 3
+		if forever {
+			run = 5
+		}
+		raw := make([]int, at+run)
+		for k := range raw {
+			raw[k] = (d + 1 + r.Intn(5)) % 10
+		}
+		for k := 0; k < run; k++ {
+			raw[at+k] = d
+		}
+		if raw[0] == 0 {
+			raw[0] = 1 + (d+1)%9
+			if raw[0] == d {
+				raw[0] = 1 + (d+2)%9
+			}
+		}
+		rep := []int{(d + 1) % 10, (d + 3) % 10}
+		if forever {
+			rep = []int{d}
+		}
+		var t toks
+		t.s("G")
+		t.ints(raw)
+		t.ints(rep)
+		t.i(1)
+		t.i(-1)
+		t.i(-1)
+		t.ints(pat)
+		fn := []int{0, 1, 7, 5, 9}[i%5]
+		t.i(fn)
+		t.i(r.Pick([]int{1, 2, 3}))
+		emit(Case{Ver: ver, Op: "Find", Args: t})
+	}
+}
+
 func genC15Rest(n int, r *Rng, emit func(Case)) {
 	genOverlapFind(n/5+6, r, emit)
+	genLongRun(n/10+12, r, emit)
 	// v3: asking for n <= 0 matches consults nothing, on every kind of sequence (endless, a bounded view of an
 	// endless Number, a finite Number, a window with a start)
 	for i := 0; i < n/3+12; i++ {
